@@ -456,7 +456,9 @@ func c16Run(c c16Case, seed string) (sig, msg string, nontrivial bool, inconclus
 			}
 			tx := txs[op.Tx%len(txs)]
 			k := wal(op.By)
-			_, _, pn := call(func() (*protobufcompiled.Transaction, error) { return s.notary.Saved(ctx, signedHash(k.Addr, tx.Hash[:], k)) })
+			_, _, pn := call(func() (*protobufcompiled.Transaction, error) {
+				return s.notary.Saved(ctx, signedHash(k.Addr, tx.Hash[:], k))
+			})
 			if pn != nil {
 				return "panic:Saved", fmt.Sprintf("step %d: Saved panicked: %v", step, pn), nontrivial, ""
 			}
@@ -504,8 +506,8 @@ func TestC16(t *testing.T) {
 	}
 	caseNo := 0
 	rapid.Check(t, func(rt *rapid.T) {
-		if worldsMade >= maxWorlds() {
-			rt.Skip("world budget used up")
+		if outOfBudget(st) {
+			return
 		}
 		worldsMade++
 		caseNo++
